@@ -59,6 +59,32 @@ def fkey(f):
         short(strip_type(p["t"])) for p in ps))
 
 
+def _visit_returns(body, cb, guards=()):
+    """calls cb(return-node, guards, line) for every return statement with the
+    if-conditions that hold there (early returns of preceding ifs included)"""
+    def block(stmts, g):
+        g = tuple(g)
+        for st in stmts:
+            k = st.get("k")
+            if k == "return":
+                cb(st, g, st.get("l"))
+                return
+            if k == "{}":
+                block(st.get("s", ()), g)
+            elif k == "if":
+                t, e = st.get("t"), st.get("e")
+                block(t.get("s", [t]) if t.get("k") == "{}" else [t],
+                      g + ((st.get("c"), True),))
+                if e:
+                    block(e.get("s", [e]) if e.get("k") == "{}" else [e],
+                          g + ((st.get("c"), False),))
+            elif k in ("for", "forr", "while", "do", "switch"):
+                b = st.get("b")
+                if b:
+                    block(b.get("s", [b]) if b.get("k") == "{}" else [b], g)
+    block(body.get("s", ()), guards)
+
+
 def escapers(prog):
     """functions that escape XML markup: their body mentions the entity
     literals for '&' and '<'"""
@@ -212,6 +238,63 @@ def run(loader, R, tier):
                     "escaping: a name containing '<' or '&' yields "
                     "ill-formed XML" % (fkey(f), show(n)))
     R.floor("get_name() uses in MathMLPrinter", nname, 2)
+    # the escaper itself: it handles the three characters that are markup in
+    # character data (& < >), and any path that returns the input unchanged
+    # has established that none of the three occurs
+    from selib import sym as _sym
+    NEED = {"&", "<", ">"}
+    for u in sorted(esc):
+        g = prog.functions[u]
+        key = "escaper:" + short(g["qn"])
+        cases = set()
+        for n in walk(g["body"]):
+            if n.get("k") == "case" and (n.get("v") or {}).get("k") == "lit":
+                v = n["v"].get("v")
+                cases.add(chr(v) if isinstance(v, int) else str(v))
+            if n.get("k") in ("bin", "op") and n.get("op") == "==":
+                for a in n.get("a", ()):
+                    if a.get("k") == "lit" and a.get("t") == "char":
+                        v = a.get("v")
+                        cases.add(chr(v) if isinstance(v, int) else str(v))
+        R.instance("R44.2", key, sample={"escaper": key,
+                                         "handled": sorted(cases & NEED)})
+        if not NEED <= cases:
+            R.violation(
+                "R44.2", key, prog.loc(g),
+                "%s does not handle %s: a name containing it is streamed "
+                "as markup" % (short(g["qn"]), sorted(NEED - cases)))
+        params = {p_["n"] for p_ in g.get("params", ())}
+
+        def cbe(n, guards, line, g=g, key=key, params=params):
+            if n.get("k") != "return" or not n.get("e"):
+                return
+            e = n["e"]
+            while e.get("k") in ("cast", "ctor") and len(
+                    [a for a in e.get("a", ()) if a.get("k") != "defarg"]) \
+                    == 1:
+                e = [a for a in e["a"] if a.get("k") != "defarg"][0]
+            if not (e.get("k") == "ref" and e.get("n") in params):
+                return
+            ok = False
+            for gd in _sym.flatten_guards(guards):
+                if gd[0] == "case":
+                    continue
+                c, pol = gd
+                t = show(c)
+                if "find_first_of" in t and "npos" in t and pol \
+                        and c.get("op") == "==":
+                    lits = [y.get("v") for y in walk(c)
+                            if y.get("k") == "lit" and y.get("t") == "str"]
+                    if lits and NEED <= set(lits[0]):
+                        ok = True
+            if not ok:
+                R.violation(
+                    "R44.2", key + ":unchanged", prog.loc(g, n.get("l")),
+                    "%s returns its input unchanged on a path that has not "
+                    "established the absence of all of & < > (e.g. a fast "
+                    "path whose character set forgets '&')" % short(g["qn"]))
+        _sym.visit_guarded_stmts(g["body"], cbe) if hasattr(
+            _sym, "visit_guarded_stmts") else _visit_returns(g["body"], cbe)
 
     # ---------------------------------------------------------------- R44.6
     # totality: std::string::substr(pos) throws std::out_of_range for
@@ -698,8 +781,49 @@ def stringbox_typestate(prog, R):
                         for n in walk(st.get("t") or {})):
                     return True
         return False
+    # free helpers that receive the line vector by reference and index a
+    # fixed line of it without first giving it one
+    def helper_unsafe(g):
+        ps = [p_["n"] for p_ in g.get("params", ())
+              if "vector<" in p_["t"] and "string" in p_["t"]
+              and p_["t"].rstrip().endswith("&")]
+        if not ps or not g.get("body"):
+            return False
+        guarded = any(
+            st.get("k") == "if" and any(p_ in show(st.get("c")) for p_ in ps)
+            and ("empty" in show(st["c"]) or "size() == 0" in show(st["c"]))
+            and any(n.get("k") in ("return",) or (
+                n.get("k") == "mcall" and n.get("n") in ("push_back",
+                                                         "emplace_back"))
+                for n in walk(st.get("t") or {}))
+            for st in g["body"].get("s", ())[:2])
+        if guarded:
+            return False
+        for n in walk(g["body"]):
+            if n.get("k") == "op" and n.get("op") == "[]" and n.get("a") \
+                    and n["a"][0].get("k") == "ref" \
+                    and n["a"][0].get("n") in ps \
+                    and any(y.get("k") == "lit" for y in walk(n["a"][1])) \
+                    and not any(y.get("k") == "ref"
+                                for y in walk(n["a"][1])):
+                return True
+            if n.get("k") == "mcall" and n.get("n") in ("back", "front") \
+                    and (n.get("o") or {}).get("k") == "ref" \
+                    and n["o"].get("n") in ps:
+                return True
+        return False
+    unsafe_helpers = {u for u, g in prog.functions.items()
+                      if "/printers/stringbox" in (g.get("file") or "")
+                      and not g.get("cls") and helper_unsafe(g)}
+
+    def calls_unsafe_helper(f):
+        return any(n.get("k") == "call" and n.get("u") in unsafe_helpers
+                   and any(y.get("k") == "mem" and y.get("m") == "lines_"
+                           for a in n.get("a", ()) for y in walk(a))
+                   for n in walk(f["body"]))
     unsafe = {n for n, f in methods.items()
-              if indexes(f) and not ensures_line(f)}
+              if (indexes(f) or calls_unsafe_helper(f))
+              and not ensures_line(f)}
     changed = True
     while changed:
         changed = False
